@@ -286,7 +286,11 @@ def R4_estimate(ctx):
         raise AnchorMissing("APPROX_EARTH_RADIUS_M")
     import struct
     val = struct.unpack("<f", struct.pack("<I", int(c["bits"])))[0] if c.get("size") == 4 else float(c.get("as_f64", "nan"))
-    ctx.check(abs(val / 6371000.0 - 1) <= 0.005, "earth-radius", "APPROX_EARTH_RADIUS_M = %s is not within 0.5%% of 6 371 000 m" % val, None, detail=str(val))
+    # the estimate must not exceed the great-circle distance the property speaks of: that distance is defined on the
+    # sphere of the mean earth radius (IUGG R1 = 6 371 008.8 m), so a greater radius (e.g. the WGS84 semi-major axis
+    # 6 378 137 m, +0.112 %) makes the A* heuristic inadmissible on networks whose edges are exactly as long as the great
+    # circle; a smaller one only weakens the heuristic (kept within 0.5 %)
+    ctx.check(val <= 6371008.8 * (1 + 1e-6) and val >= 6371000.0 * 0.995, "earth-radius", "APPROX_EARTH_RADIUS_M = %s: the great-circle estimate must use a radius in [0.995 x 6 371 000 m, mean earth radius 6 371 008.8 m] (a greater radius over-estimates: A* inadmissible)" % val, None, detail=str(val))
     hv = F.need("routee_compass_core::util::geo::haversine::haversine_distance_meters")
     oks = [r for r in table(hv, max_paths=100000) if r.end == "return" and result_variant(r.ret) == "Ok"]
     okh = len(oks) >= 1
@@ -363,4 +367,11 @@ def S0(ctx):
     common.S0_order(ctx, "C02.S0", ["routee_compass_core::model::unit::cost::Cost", "routee_compass_core::model::unit::cost::ReverseCost", "routee_compass_core::model::unit::internal_float::InternalFloat", "routee_compass_core::model::unit::speed::Speed"])
 
 
-RULES = [R1_relaxation, R2_queue, R3_dijkstra, R4_estimate, R5_overrides, R6_units, S0]
+def R7_feature_slots(ctx):
+    """"the query's own objective" prices each feature's own slot: the indices CostModel::new stores come from
+    StateModel::indexed_iter (index i = slot i; shared with C11.R4, see C07.R6)"""
+    from props.C11 import R4_state_model
+    R4_state_model(ctx)
+
+
+RULES = [R1_relaxation, R2_queue, R3_dijkstra, R4_estimate, R5_overrides, R6_units, S0, R7_feature_slots]
